@@ -281,3 +281,61 @@ func genMiscC01(e *emitter, r *rng, n int) {
 		e.note("misc")
 	}
 }
+
+func init() {
+	// C12.fromtx <previous tx> <pubkey hex>: Tx.AddP2PKHInputsFromTx on a fresh transaction
+	executors["C12.fromtx"] = func(a []string) string {
+		pvs := parseDesc(a[0])
+		key := mustHex(a[1])
+		return safe(func() string {
+			tx := bt.NewTx()
+			err := tx.AddP2PKHInputsFromTx(pvs, key)
+			oc := "ok"
+			if err != nil {
+				oc = "err"
+			}
+			var xs []string
+			for _, in := range tx.Inputs {
+				xs = append(xs, descInput(in))
+			}
+			return fmt.Sprintf("%s n=%d in=%s", oc, len(tx.Inputs), strings.Join(xs, ","))
+		})
+	}
+}
+
+// previous transactions some of whose outputs pay to the key: exact P2PKH, P2PKH-shaped with a longer / shorter / empty
+// hash push, other templates, data outputs and undecodable scripts in between (the first of those ends the scan)
+func genFromTxC12(e *emitter, r *rng, n int) {
+	for i := 0; i < n; i++ {
+		k := genKey(r)
+		h := hash160(k.pubC)
+		pvs := genTx(r, r.n(3), 0, false)
+		nOut := r.n(7)
+		for j := 0; j < nOut; j++ {
+			var s []byte
+			switch r.n(10) {
+			case 0, 1, 2, 3:
+				s = append(append([]byte{0x76, 0xa9, 0x14}, h...), 0x88, 0xac)
+			case 4:
+				s = p2pkhScript(r) // somebody else's
+			case 5:
+				s = append(append([]byte{0x76, 0xa9, 0x14}, h...), 0x88, 0xac, 0x61) // same hash, not the template
+			case 6:
+				s = append(append([]byte{0x76, 0xa9, 0x4c, 0x14}, h...), 0x88, 0xac) // PUSHDATA1 form of the hash
+			case 7:
+				if r.chance(50) {
+					s = tmplData(r)
+				} else {
+					s = []byte{}
+				}
+			case 8:
+				s = append([]byte{0x76, 0xa9, 0x15}, h...) // push announces more than there is
+			default:
+				s = append(append(append([]byte{0x76, 0xa9, 0x14}, h...), 0x88, 0xac), tmplInscription(r)[25:]...)
+			}
+			pvs.Outputs = append(pvs.Outputs, &bt.Output{Satoshis: r.u64() >> uint(20+r.n(44)), LockingScript: scr(s)})
+		}
+		res := e.run("C12.fromtx", descTx(pvs), hex.EncodeToString(k.pubC))
+		e.note("fromtx." + strings.Fields(res)[0])
+	}
+}
